@@ -22,7 +22,7 @@ import numpy as np
 
 import core
 
-PROOF_MODULES = ["UnytProofs.C17", "UnytProofs.C17Observed", "UnytProofs.C17Chains", "UnytProofs.Real.C17Real"]
+PROOF_MODULES = ["UnytProofs.C17", "UnytProofs.C17Observed", "UnytProofs.C17Chains", "UnytProofs.C17Factor", "UnytProofs.C17Offset", "UnytProofs.Real.C17Real"]
 
 PREC = {2: 11, 4: 24, 8: 53, 16: 64}
 # precision the *values* can have: the conversion factor is a Python float (binary64)
@@ -1066,6 +1066,14 @@ def _sweep(chk, tier):
                 gg = (float(g.real), float(g.imag)) if rd.kind == "c" else (float(g), 0.0)
                 ask(["c17.value", "inbase", d.kind, d.itemsize, e, core.f2b(f_), "none" if o_ is None else core.f2b(o_)], ("value", "inbase", d.name, f"{a} {v}", rd, gg))
 
+    # ============================================================ E2. the Python type of the conversion factor
+    # (NumPy-scalar base values: Planck units, bel family, planck unit system — found in the live table)
+    import sys
+
+    import c17_factor
+
+    c17_factor.factor_sweep(sys.modules[__name__], chk, tier, universe, snippet, ask)
+
     # ============================================================ F. regenerated tables read back
     import unyt.array as UA
 
@@ -1108,6 +1116,9 @@ def _sweep(chk, tier):
             want = ["none"] if exp[2] is None else ["ok", str(exp[2])]
             if rep != want:
                 chk.disagree("c17.dump.large", f"LARGE_INPUT[{exp[1]}]: model {rep} vs live {want}")
+        elif kind == "fkind":
+            if rep != ["ok", exp[-1]]:
+                chk.disagree(line.split("\t")[0], f"{exp[1:3]}: model {rep} vs live type {exp[-1]}")
         elif kind == "dump.universe":
             if rep != ["ok", exp[1]]:
                 chk.disagree("c17.dump.universe", f"model {rep} vs live {exp[1]}")
